@@ -100,6 +100,48 @@ fn len_accepted(kind: &str, n: u64) -> Option<bool> {
     }
 }
 
+fn put_long(out: &mut Vec<u8>, n: i64) {
+    let mut z = ((n << 1) ^ (n >> 63)) as u64;
+    loop {
+        if z <= 0x7f {
+            out.push(z as u8);
+            break;
+        }
+        out.push(0x80 | (z & 0x7f) as u8);
+        z >>= 7;
+    }
+}
+
+/// does the container reader accept blocks of these byte sizes, in this order?  (a file of one-byte fixed items,
+/// null codec; true = every block was read without a memory-limit error)
+fn blocks_accepted(sizes: &[u64]) -> Option<bool> {
+    let schema = br#"{"type":"fixed","name":"B","size":1}"#;
+    let marker = [7u8; 16];
+    let mut f: Vec<u8> = b"Obj\x01".to_vec();
+    put_long(&mut f, 1);
+    put_long(&mut f, 11);
+    f.extend_from_slice(b"avro.schema");
+    put_long(&mut f, schema.len() as i64);
+    f.extend_from_slice(schema);
+    f.push(0);
+    f.extend_from_slice(&marker);
+    for &s in sizes {
+        put_long(&mut f, s as i64);
+        put_long(&mut f, s as i64);
+        f.extend(std::iter::repeat(0x41u8).take(s as usize));
+        f.extend_from_slice(&marker);
+    }
+    let r = apache_avro::Reader::new(&f[..]).ok()?;
+    let mut n = 0u64;
+    for it in r {
+        match it {
+            Ok(_) => n += 1,
+            Err(_) => return Some(false),
+        }
+    }
+    Some(n == sizes.iter().sum::<u64>())
+}
+
 /// Probing never declares more than this many bytes: a declared length below the limit is really
 /// allocated by the decoder, so limits above the cap are only observed as "at least the cap".
 const PROBE_CAP: u64 = 1 << 24;
@@ -145,6 +187,24 @@ fn run_op(op: &Sexp) -> Sexp {
                 let c = l / es;
                 flags.push(Sexp::num(if c == 0 { 1 } else { len_accepted(kind, c).unwrap_or(false) as u64 }));
                 flags.push(Sexp::num(len_accepted(kind, c + 1).unwrap_or(true) as u64));
+            }
+            // the container reader applies the same limit to the declared byte size of a block, also to a block that
+            // would fit the buffer it already holds (blocks of growing size first)
+            if l >= 8 && l <= (1 << 20) {
+                let (a, b) = (l * 6 / 10 + 1, l * 7 / 10 + 1);
+                // (a limit too small for the file header itself cannot be probed this way: nothing is reported)
+                let probes = [
+                    blocks_accepted(&[l]),
+                    blocks_accepted(&[l + 1]),
+                    blocks_accepted(&[a, b, l]),
+                    blocks_accepted(&[a, b, l + 1]),
+                    blocks_accepted(&[a, b, l + l / 10]),
+                ];
+                if probes.iter().all(|p| p.is_some()) {
+                    for p in probes {
+                        flags.push(Sexp::num(p.unwrap_or(false) as u64));
+                    }
+                }
             }
             Sexp::tag("limit", vec![Sexp::num(l), Sexp::tag("edges", flags)])
         }
